@@ -37,7 +37,9 @@ def impl(case):
         d = {i: np.array(v, dtype=np.int64) for i, v in enumerate(case['d'])}
         return [int(x) for x in A._flatten_per_cluster(d)]
     if op == 'gmean':
-        out = A.grouped_mean(np.array(case['arr'], dtype=np.float64), np.array(case['sc'], dtype=case['dtype']))
+        adt = case.get('adtype', 'float64')
+        arr = list(case['arr']) if adt == 'list' else np.array(case['arr'], dtype=adt)
+        out = A.grouped_mean(arr, np.array(case['sc'], dtype=case['dtype']))
         return [float(x) for x in out]
     if op == 'tcounts':
         with C.scratch_dir() as d:
@@ -49,9 +51,21 @@ def impl(case):
                                     cluster_spikes=[int(x) for x in m.get_cluster_spikes(c)],
                                     template_spikes=[int(x) for x in m.get_template_spikes(c)]))
                 nt = int(m.n_templates)
+                # the same queries after the assignments were changed in memory (no save): they
+                # must follow the array helpers on the CURRENT assignments
+                new_sc = np.asarray(m.spike_clusters).copy()[::-1].copy()
+                m.spike_clusters = new_sc
+                inmem_ok = True
+                for c in case['cs']:
+                    exp = A._spikes_in_clusters(new_sc, [c])
+                    got = m.get_cluster_spikes(c)
+                    cnt = m.get_template_counts(c)
+                    exp_cnt = np.bincount(np.asarray(m.spike_templates)[exp], minlength=nt)
+                    if not (np.array_equal(got, exp) and np.array_equal(cnt, exp_cnt)):
+                        inmem_ok = False
             finally:
                 m.close()
-        return dict(res=out, nt=nt)
+        return dict(res=out, nt=nt, inmem_ok=inmem_ok)
     raise ValueError(op)
 
 
@@ -89,6 +103,8 @@ def judge(case, impl_res, ans):
             return 'MACHINERY: n_templates of the generated dataset'
         if ok['res'] != m:
             return 'SPEC: model query differs from the set-theoretic definition'
+        if ok.get('inmem_ok') is False:
+            return 'SPEC: model queries do not follow the array helpers after the assignments were changed in memory'
         return None
     if ok != m:
         return 'SPEC: helper output differs from its set-theoretic definition'
@@ -106,6 +122,8 @@ def tally(rep, case, impl_res, ans):
     rep.count('op:' + case['op'])
     if 'dtype' in case:
         rep.count('dtype:' + case['dtype'])
+    if case['op'] == 'gmean':
+        rep.count('values_dtype:' + case.get('adtype', 'float64'))
     if case['op'] == 'spc':
         rep.count('len:%s' % (len(case['sc']) if len(case['sc']) < 8 else '8+'))
         rep.count('ids:%s' % ('given' if case.get('ids') is not None else 'none'))
@@ -198,7 +216,9 @@ def gen(tier, rng):
             rng.shuffle(cl)
             yield dict(p=PID, op='sic', sc=sc, cl=cl, dtype=dt)
         elif t == 2:
-            yield dict(p=PID, op='gmean', sc=sc, arr=[rng.randrange(-50, 50) for _ in range(n)], dtype=dt)
+            adt = rng.pick(['float64', 'float64', 'int64', 'int8', 'int16', 'uint8', 'bool', 'list', 'float32'])
+            lo, hi = {'uint8': (0, 256), 'bool': (0, 2), 'int8': (-128, 128)}.get(adt, (-50, 50))
+            yield dict(p=PID, op='gmean', sc=sc, arr=[rng.randrange(lo, hi) for _ in range(n)], dtype=dt, adtype=adt)
         else:
             lookup = rng.sample(range(0, max(R, 200)), rng.randrange(1, 30))
             yield dict(p=PID, op='index_of', arr=[rng.pick(lookup) for _ in range(n)], lookup=lookup)
